@@ -80,6 +80,12 @@ def configs(tier):
         else:
             out.append(mkcfg(f"km-t14-{tag}", "KM", "none", N, F(1), t=q, g=F(1, 8)))
             out.append(mkcfg(f"kw-t14-{tag}", "KW", "none", N, F(1), t=q, g=F(1, 8)))
+    # a bet of exactly zero, and a population bound and null mean well above 1
+    for N in ([0, 4] if tier == "quick" else [0, 4, 6]):
+        tag = "inf" if N == 0 else f"N{N}"
+        out.append(mkcfg(f"bet-fixed-lam0-{tag}", "BETTING", "fixedbet", N, F(1), lam=F(0)))
+        out.append(mkcfg(f"bet-fixed-lam0-u3-{tag}", "BETTING", "fixedbet", N, F(3), t=F(5, 2), lam=F(0)))
+        out.append(mkcfg(f"bet-fixed-u3-{tag}", "BETTING", "fixedbet", N, F(3), t=F(5, 2), lam=F(1, 4)))
     # the smallest margins (u -> 1+): optimal_comparison with the default assumed error rate
     for N in Ns:
         tag = "inf" if N == 0 else f"N{N}"
@@ -266,16 +272,17 @@ def run_sample(tst, cfg, xs, buf=None):
         xin = lambda: x
     # a test object is a live object: between two uses its population size may be set to something else and back
     if (n + len(cfg["name"])) % 3 == 0:
+        realN, realu = tst.N, tst.u
         try:
-            realN = tst.N
             tst.N = (n + 3) if not np.isfinite(realN) else realN + 3
+            tst.u = realu * 1.25          # (as set_p_values does with every new margin)
             with warnings.catch_warnings():
                 warnings.simplefilter("ignore")
                 tst.test(np.array([float(v) for v in xs]))
         except Exception:
             pass
         finally:
-            tst.N = realN
+            tst.N, tst.u = realN, realu
     try:
         with warnings.catch_warnings():
             warnings.simplefilter("ignore")
